@@ -70,8 +70,8 @@ fn cleanup_temporary_directory(temp_dir: Cow<Path>) -> Result<()> {
     Ok(())
 }
 
-/// Returns `name` if it non-empty and does not start with a reserved
-/// byte (dot, slash, backslash).
+/// Returns `name` if it non-empty, does not start with a reserved
+/// byte (dot, slash, backslash), and contains no path separator.
 fn validate_file_name(name: &str) -> Result<&str> {
     match name.as_bytes().first() {
         None => Err(Error::new(
@@ -89,6 +89,12 @@ fn validate_file_name(name: &str) -> Result<&str> {
         Some(b'\\') => Err(Error::new(
             ErrorKind::InvalidInput,
             "kismet cached file name must not starts with a backslash",
+        )),
+        // A name with an embedded separator would resolve outside the
+        // cache directory (`x/../../y`) or into a subdirectory of it.
+        Some(_) if name.contains(std::path::is_separator) => Err(Error::new(
+            ErrorKind::InvalidInput,
+            "kismet cached file name must not contain a path separator",
         )),
         Some(_) => Ok(name),
     }
